@@ -107,6 +107,14 @@ def run(ctx):
                      'N%s labeled a C. labeled b single bond to a', 'C%s labeled a ringatom C labeled b single bond to a C labeled c single bond to b',
                      'C labeled b C%s labeled a single bond to b', 'O%s labeled a C labeled b single bond to a {connected to >1 C}'):
             jobs.append({'op': 'match', 'text': 'fragment f{%s}' % (body % sfx), 'smiles': chg2, 'graphs': True, 'timeout': 30})
+    # neighbour counts where SOME neighbours of the requested element fail their own radical count / prefix, met in either bond order
+    nb_mols = ['[CH2]CC', 'CC[CH2]', 'C[CH]C', 'CC1CC1', 'C1C(C)C1', '[CH2]C[CH2]', 'CC(C)[CH2]', '[CH2]C(C)C', 'C[CH]CC', 'CC[CH]C', 'CC1CCC1C', 'C1CC1CC1CC1',
+               'C[CH]C1CC1', 'C1CC1[CH]C', '[CH2]C(=O)C', 'CC(=O)[CH2]', 'C=CC[CH2]', '[CH2]CC=C', 'c1ccccc1C[CH2]', '[CH2]Cc1ccccc1']
+    for body in ('C labeled a {connected to =1 C}', 'C labeled a {connected to =2 C}', 'C labeled a {connected to >0 C.}', 'C labeled a {connected to =1 C.}',
+                 'ringatom C labeled a {connected to =1 nonringatom C}', 'ringatom C labeled a {connected to =2 ringatom C}', 'C labeled a {connected to =1 ringatom C}',
+                 'C labeled a {connected to =1 C, connected to =1 C.}', 'C labeled a {! connected to >1 C}', 'C labeled a {connected to =1 nonaromatic C}',
+                 'C labeled a {connected to =1 aromatic C}', 'C. labeled a {connected to =1 C}', 'C labeled a {connected to <2 C with single bond}'):
+        jobs.append({'op': 'match', 'text': 'fragment f{%s}' % body, 'smiles': nb_mols, 'graphs': True, 'timeout': 30})
     # random larger fragments / molecules
     pool = [molgen.rnd_gas(rng) for _ in range(60)] + [molgen.rnd_surface(rng, 'Pt') for _ in range(30)]
     nrand = ctx.n(250, 6000)
